@@ -7,6 +7,8 @@ import (
 	"fmt"
 	"io"
 	"regexp"
+
+	"github.com/mikefarah/yq/v4/pkg/verifhook"
 )
 
 type Printer interface {
@@ -96,6 +98,7 @@ func (p *resultsPrinter) PrintResults(matchingNodes *list.List) error {
 
 	for el := matchingNodes.Front(); el != nil; el = el.Next() {
 
+		verifhook.Yield("print.node")
 		mappedDoc := el.Value.(*CandidateNode)
 		log.Debug("print sep logic: p.firstTimePrinting: %v, previousDocIndex: %v", p.firstTimePrinting, p.previousDocIndex)
 		log.Debug("%v", NodeToString(mappedDoc))
